@@ -210,7 +210,12 @@ class PropertyRun:
             # retry the failing instances alone with a 6x budget before deciding
             still = []
             self._retries = getattr(self, "_retries", 0)
+            on_floor = norm(name) in set(base.get("names_ok", []))
             for v in bad:
+                if on_floor:
+                    # decided by the confirmation pass below (a second, larger budget), not by this retry
+                    still.append(([o for o in ob_by_name[name] if o.path_id == v.path_id][0], v))
+                    continue
                 if self._retries >= 3:
                     # enough evidence that this run has failing obligations; do not spend minutes per instance
                     still.append(([o for o in ob_by_name[name] if o.path_id == v.path_id][0], v))
@@ -221,7 +226,7 @@ class PropertyRun:
                 self.solver_time[v2.backend] = self.solver_time.get(v2.backend, 0.0) + v2.seconds
                 if v2.status != "unsat":
                     still.append((ob, v2))
-            if still and norm(name) in set(base.get("names_ok", [])):
+            if still and on_floor:
                 # Confirmation pass for an obligation that was discharged on the committed tree: the failing instances are solved
                 # again one at a time (nothing else of this check running) with three times the budget, so that a verdict lost to
                 # machine load or to an unlucky solver configuration is not reported as a violation.
